@@ -210,5 +210,4 @@ impl YaccParser {
         //@endbody
     }
 }
-//@undecided parse_declarations (other than %token, unit c10_decls), parse_rule(s), parse_action, parse_programs are not under contract
 //@use prelude/tail.rs
